@@ -276,7 +276,8 @@ def run_property(pid, tier, seed):
     if res.errors:
         for e in res.errors:
             print("CHECKER-ERROR:", e)
-        return 3
+        if not res.violations:
+            return 3
     if res.violations:
         for v in res.violations:
             tail = '' if v['confirmed'] else ' no-failing-input-found'
